@@ -9,6 +9,12 @@ def translate_docs(docs, modes=("generate",), want=("ui",), tag="d", extra=None)
     jobs = []
     for i, d in enumerate(docs):
         j = {"id": "d%d" % i, "source": d.source, "type_name": d.type_name, "modes": list(modes), "want": list(want)}
+        if getattr(d, "path", None):
+            # document lives on disk next to its custom components
+            with open(d.path, "w") as f:
+                f.write(d.source)
+            j["path"] = d.path
+            j["source"] = ""
         if extra:
             j.update(extra)
         jobs.append(j)
